@@ -145,6 +145,10 @@ def run(ctx, chk):
         chk.ob(rule, "the loader unpacks (hash, %s)" % ", ".join(globs), ok, "",
                key={"function": f.key, "construct": "unpack tuple"}, file=f.file, function=f.qual, line=unpack[0].lineno)
 
+    # R8 a rebuild gives the same table every time it runs in a process
+    from .c16 import tz_source_untouched_rule
+    tz_source_untouched_rule(ctx, chk, "C19.R8")
+
     # R7 the write replaces whatever is on disk
     rule = "C19.R7"
     from ..core.effects import fold_str
